@@ -225,6 +225,13 @@ example : parseArgs ["-f-odd-name.cml", "in.cif", "-r", "r.cml", "-p", "0.25", "
     "-op", "-1", "out.lmpdat", "-qq.txt", "--replicate", "2", "1", "1", "--mic", "12.5", "--pp"] = .ok exTyped.toOptions := by
   decide +kernel
 
+/-- numbers as python reads them: blanks around the text, `_` between two digits -/
+example : parseArgs ["a.cif", "b.cif", "--atol", " 1_0.2_5 ", "-ap1", "1_0\n", "--mic", "0"] =
+    .ok { input := "a.cif", inputNative := true, output := "b.cif", outputNative := true, atol := 41 / 4,
+          hints := ⟨some 10, none, none⟩, mic := some 0 } := by decide +kernel
+example : parseArgs ["a.cif", "b.cif", "--atol", "1__0"] = .error .badValue := by decide +kernel
+example : parseArgs ["a.cif", "b.cif", "-ap1", "_1"] = .error .badValue := by decide +kernel
+
 /-- error classes -/
 example : parseArgs ["a.cif", "b.cif", "--nope"] = .error .noSuchOption := by decide +kernel
 example : parseArgs ["a.cif", "b.cif", "-x"] = .error .noSuchOption := by decide +kernel
